@@ -1870,7 +1870,46 @@ def job_parse_many(job):
     return {"id": job["id"], "kind": "parse_many", "results": out}
 
 
-JOBS = {"parse_many": job_parse_many, "typer": job_typer, "worklist": job_worklist, "expansions": job_expansions, "synth": job_synth, "funcmoment": job_funcmoment, "bayesnet": job_bayesnet, "dists": job_dists, "invariants": job_invariants, "session": job_session, "accepts": job_accepts, "analyze": job_analyze, "linrec": job_linrec, "explattice": job_explattice, "simulate": job_simulate}
+def job_cli_files(job):
+    """one command line invocation over several benchmark files, as polar.py does it: ONE action object handles the files
+    one after the other; the printed output is returned per file"""
+    import contextlib
+    import io
+    import tempfile as _tf
+    from cli import ArgumentParser
+    from cli.actions import ActionFactory
+    paths = []
+    for text in job["files"]:
+        tf = _tf.NamedTemporaryFile("w", suffix=".prob", delete=False)
+        tf.write(text)
+        tf.close()
+        paths.append(tf.name)
+    old_argv = sys.argv
+    outs = []
+    try:
+        sys.argv = ["polar.py"] + paths + list(job["argv"])
+        with contextlib.redirect_stdout(io.StringIO()):
+            args = ArgumentParser().parse_args()
+            action = ActionFactory.create_action(args)
+        for pth in args.benchmarks:
+            buf = io.StringIO()
+            try:
+                with contextlib.redirect_stdout(buf):
+                    action(pth)
+                outs.append({"out": buf.getvalue()})
+            except JobTimeout:
+                raise
+            except (Exception, SystemExit) as ex:
+                outs.append({"out": buf.getvalue(), "exc": type(ex).__name__})
+    finally:
+        sys.argv = old_argv
+        for pth in paths:
+            os.unlink(pth)
+        apply_settings({})
+    return {"id": job["id"], "kind": "cli_files", "outputs": outs}
+
+
+JOBS = {"cli_files": job_cli_files, "parse_many": job_parse_many, "typer": job_typer, "worklist": job_worklist, "expansions": job_expansions, "synth": job_synth, "funcmoment": job_funcmoment, "bayesnet": job_bayesnet, "dists": job_dists, "invariants": job_invariants, "session": job_session, "accepts": job_accepts, "analyze": job_analyze, "linrec": job_linrec, "explattice": job_explattice, "simulate": job_simulate}
 
 
 def handle(job):
